@@ -8,6 +8,7 @@ import (
 	"pgregory.net/rapid"
 	"verifharness/internal/evid"
 	"verifharness/internal/nlhist"
+	"verifharness/internal/nodelite"
 )
 
 const id = "C16"
@@ -165,6 +166,45 @@ func TestC16_DeleteKeepsOthers(t *testing.T) {
 			cls = append(cls, k)
 		}
 		r.Case(evid.Hash64(c), st.nt, cls...)
+		r.Sample(c)
+	})
+}
+
+
+// TestC16_SharingDense: three or four files over only two chunk templates, so that every file
+// shares chunks with several others, and histories that mostly upload, download and delete: the
+// reference counting behind "still needed by another file" is exercised across more than two owners.
+func TestC16_SharingDense(t *testing.T) {
+	r := evid.Get(id)
+	evid.Finish(t, r)
+	evid.Checks(150)
+	rapid.Check(t, func(t *rapid.T) {
+		c := nlhist.Gen(t, nlhist.GenOptions{MaxFiles: 4, MaxOps: 14, MaxBlocks: 2,
+			Kinds: []string{"upload", "upload", "upload", "upload", "fetch", "delete", "delete", "delete", "delete", "gc", "restart"}})
+		for len(c.Files) < 3 {
+			c.Files = append(c.Files, nodelite.FileSpec{Tags: []int{0}, Tail: 9, Salt: len(c.Files)})
+		}
+		for i := range c.Files {
+			for j := range c.Files[i].Tags {
+				c.Files[i].Tags[j] %= 2
+			}
+			if len(c.Files[i].Tags) == 0 {
+				c.Files[i].Tags = []int{i % 2}
+			}
+			c.Files[i].Salt = i // distinct tails: the files differ, their blocks are shared
+			if c.Files[i].Tail == 0 {
+				c.Files[i].Tail = 9
+			}
+		}
+		sig, err, st := run(c)
+		if err != nil {
+			t.Fatalf("%s", evid.Violation(id, sig, fmt.Sprintf("%v\ncase=%+v", err, c)))
+		}
+		cls := []string{"sharing-dense"}
+		for k := range st.classes {
+			cls = append(cls, k)
+		}
+		r.Case(evid.Hash64("dense", c), st.nt, cls...)
 		r.Sample(c)
 	})
 }
